@@ -396,6 +396,31 @@ def make_replay(mod, p, pid, o):
   return rec
 
 
+def assume_sites(pid):
+  """Mechanical scan: every `assume(` in the proof script of the property and in the theory libraries it imports.
+  Each is a precondition, a definition of a ghost / reduction symbol at the point of interest, an instance of a proved
+  lemma, or a trusted library fact - the categories are described in `trusted_base`; the list lets a reader audit them."""
+  props = os.path.join(VERIF, 'pyvc', 'props')
+  files = sorted(f for f in os.listdir(props) if f.startswith(pid) and f.endswith('.py'))
+  libs = set()
+  out = []
+  for f in files:
+    src = open(os.path.join(props, f)).read()
+    for m in re.finditer(r'from \.\.(lib_\w+) import|from \.\. import (lib_\w+)|from \.(C\d\d\w*) import', src):
+      name = m.group(1) or m.group(2)
+      if name:
+        libs.add(os.path.join(VERIF, 'pyvc', name + '.py'))
+      elif m.group(3):
+        libs.add(os.path.join(props, m.group(3) + '.py'))
+  for path_ in [os.path.join(props, f) for f in files] + sorted(libs):
+    if not os.path.exists(path_):
+      continue
+    for i, line in enumerate(open(path_).read().splitlines(), 1):
+      if re.search(r'\b(ctx|c|s\.ctx|c2)\.assume\(', line):
+        out.append(f'{os.path.relpath(path_, VERIF)}:{i}: {line.strip()[:110]}')
+  return {'count': len(out), 'sites': out[:400]}
+
+
 def write_evidence(p, path, t0, violations, unknown, known_lines=(), undecided=None,
                    undecided_notes=()):
   obs = p.sink.obligations
@@ -446,6 +471,7 @@ def write_evidence(p, path, t0, violations, unknown, known_lines=(), undecided=N
           'bounded_standins': [
               {k: b.get(k) for k in ('name', 'bound', 'result', 'why_bounded')}
               for b in getattr(p, 'native_checks', [])],
+          'assume_sites': assume_sites(p.prop_id),
           'reachability': getattr(p, 'reach', None),
           'decided_during_execution': len(p.sink.trivial),
           'not_covered': p.not_covered,
